@@ -6,6 +6,8 @@ Opts == [maxHead |-> 10, maxProc |-> 20, minShard |-> 2, maxShard |-> 3, maxIdle
 SizeSet == {[series |-> 3, total |-> 3], [series |-> 6, total |-> 7]}
 None == {{}}
 All == {Targets}
+\* liveness runs: the foreign updates that leave a pending transfer without partner, or wipe a shard
+PlaceLive == {{}} \cup {{[t |-> t, state |-> "in_transfer"]} : t \in Targets}
 Small == clock <= 2
 TypeK == nsh \in 0..MaxN
 =============================================================================
